@@ -91,6 +91,10 @@ fn main() {
     let seed = arg_after(&args, "--seed").and_then(|s| s.parse().ok()).or(seed_env).unwrap_or(0);
     let seed = if seed == 0 { 0x1661_2026 } else { seed };
 
+    if args[1] == "--dump-journals" {
+        journal::dump_journals(&PathBuf::from(&args[2]), args.get(3).and_then(|s| s.parse().ok()).unwrap_or(30));
+        return;
+    }
     if args[1] == "--worker" {
         let pfile = PathBuf::from(&args[2]);
         let params: Params = serde_json::from_str(&std::fs::read_to_string(&pfile).expect("params")).expect("params json");
